@@ -862,6 +862,17 @@ class Path:
         raise Unsupported(f"getattr {type(o).__name__}.{name}")
 
     def obj_getattr(self, o: SObj, name):
+        hf = getattr(o, "hook_first", None)
+        if hf and name in hf:
+            # a fixture may declare that reading this field goes through the class's hook (e.g. forwarding properties of Alias that can raise)
+            for c in self.class_mro(self.resolve_cls(o)):
+                h0 = self.attr_hooks.get((c, name))
+                if h0:
+                    r0 = h0(self, o)
+                    from . import models as _m0
+                    if r0 is not _m0.NOATTR:
+                        return r0
+                    break
         if name in o.fields:
             return o.fields[name]
         if name in o.lazy:
